@@ -3,6 +3,8 @@
 # `git -C /repo worktree add --detach /tmp/repo2 HEAD` (remove both afterwards). Usage: tools/eval_seed_scratch.sh <seed-dir-name|clean> [property]
 # evaluate a seed in the scratch copies: /tmp/verif2 (machinery) against /tmp/repo2 (worktree with the seed applied)
 rsync -a --exclude .git --exclude replays --exclude build --exclude evidence --exclude '*.vo' --exclude '*.glob' --exclude '*.aux' --exclude '.*.d' /verif/ /tmp/verif2/
+# rsync -a carries the OLD mtimes of the generated .v files over .vo files the scratch copy built later (possibly from a seeded tree): touch them
+touch /tmp/verif2/coq/theories/Generated/*.v
 d=/verif/seeded/$1
 id=${2:-$(echo "$1" | cut -c1-3)}
 git -C /tmp/repo2 checkout -q -- . ; git -C /tmp/repo2 clean -fdq
